@@ -16,7 +16,7 @@ ROWS = [
  ("C07h", "fast path for an unsegmentable main region touches the entry in the wrong list", "MaxSize 2 and a read of the entry in probation", "C07 (`region-size-mismatch`)", ""),
  ("C07i", "a cost increase of a window entry checks only the window's own bound", "full cache, spare room in the window, a window entry growing", "C07 (`over-capacity-after-set`)", ""),
  ("C08h", "Buffer.Add tests `size == capacity`", "a reader delayed between its loads of head and tail across a full round of the stripe", "C08 (`stripe-wedged...`, `stripe-dead`)", "**quick missed at first** (no yield point between the two loads; the thorough tier's store-level stress caught it) -> hook H8; rebased onto the hook commit"),
- ("C08i", "with the entry pool on, the recycled-entry re-check of a pending read event is skipped for entries that are linked in the policy", "entry pool, a hit still pending in a stripe when its entry is reclaimed and reused for another key", "**not caught**", "the no-invention rounds run with the pool off; a pool-on variant was not built"),
+ ("C08i", "with the entry pool on, the recycled-entry re-check of a pending read event is skipped for entries that are linked in the policy", "entry pool, a hit still pending in a stripe when its entry is reclaimed and reused for another key", "C08 (`read-events-invented/never-read-key-promoted/entry-pool`)", "**missed everywhere at first** (the no-invention rounds ran with the pool off) -> pooled no-invention rounds"),
  ("C09h", "the loading cache's hit path frees its stripe before the batch is applied: loading caches never deliver a read to the policy", "loading builder routes", "C09 (`hot-set-lost/loading/...`)", ""),
  ("C09i", "a probation hit promotes only while the protected region has room", "an earlier working set about the size of the cache, each key read twice, then the hot-set workload", "@C09i@", ""),
  ("C10h", "Close resets the read buffers while holding the policy lock (Buffer.Clear spins for the drain token)", "Close overlapping a reader that holds a stripe's token and is queued for the policy lock", "@C10h@", ""),
